@@ -32,7 +32,8 @@ nontrivial_rule("C14", "Non-trivial: a value exactly on a class edge, or an irre
                        "level (collective sub-checks: both orientations from > to and from < to present, or an extra index level, or a "
                        "Series operand).")
 assumptions("C14", [
-    "load values are finite, |x| <= 1e6, no negative zeros; 'range' of a range/mean collective is >= 0",
+    "load values are finite, |x| <= 1e6, either 0 or |x| >= 1e-100 (no subnormal arithmetic), no negative zeros; 'range' of a "
+    "range/mean collective is >= 0",
     "histogram clauses are asserted for collectives without a cycles column or with all cycles = 1 (the histogram methods count rows; "
     "weighted collectives are generated, labelled and reported, not asserted)",
     "'inside the covered range' is numpy's convention: first edge <= value <= last edge",
@@ -59,12 +60,18 @@ def _atol(*arrays):
 
 
 # --------------------------------------------------------------------------- value strategies
+def _norm(x):
+    """no negative zero, no values below 1e-100 in magnitude (halving a subnormal difference is not exact, and numpy cannot
+    build classes over a subnormal data range) - load values of that size are outside the domain"""
+    return 0.0 if abs(x) < 1e-100 else x + 0.0
+
+
 def _load_values():
     return st.one_of(
         st.integers(-20, 20).map(float),
         st.integers(-4000, 4000).map(lambda i: i / 8.0),
-        st.floats(-1e6, 1e6, allow_nan=False, allow_infinity=False).map(lambda x: x + 0.0),
-        st.floats(-1.0, 1.0, allow_nan=False).map(lambda x: x + 0.0),
+        st.floats(-1e6, 1e6, allow_nan=False, allow_infinity=False).map(_norm),
+        st.floats(-1.0, 1.0, allow_nan=False).map(_norm),
     )
 
 
@@ -454,8 +461,8 @@ def _histogram_cases(draw, tier):
         val = st.integers(0, 96).map(lambda i: i / 8.0)
         mval = st.integers(-48, 96).map(lambda i: i / 8.0)
     else:
-        val = st.floats(0.0, 12.0, allow_nan=False)
-        mval = st.floats(-6.0, 12.0, allow_nan=False).map(lambda x: x + 0.0)
+        val = st.floats(0.0, 12.0, allow_nan=False).map(_norm)
+        mval = st.floats(-6.0, 12.0, allow_nan=False).map(_norm)
     rng = draw(st.lists(val, min_size=n, max_size=n))
     mean = draw(st.lists(mval, min_size=n, max_size=n))
     spec = draw(st.sampled_from(["count", "count", "edges", "edges", "edges", "intervals", "intervals", "interval_array", "single"]))
@@ -544,7 +551,17 @@ def collective_histogram(case, ctx):
         grp = {}
         for i, key in enumerate(df.index):
             grp.setdefault(tuple(key[:-1]), []).append(i)
-    h1 = lc.range_histogram(barg, axis).to_pandas()
+    def narrow(vals):
+        """a non-degenerate data range of a few ulp: numpy cannot cut it into classes (its documented ValueError)"""
+        return any(0.0 < max(vals[i] for i in mem) - min(vals[i] for i in mem) <= 16 * EPS * max(abs(vals[i]) for i in mem) * int(bins)
+                   for mem in grp.values())
+    try:
+        h1 = lc.range_histogram(barg, axis).to_pandas()
+    except ValueError as ex:
+        if spec == "count" and "Too many bins for data range" in str(ex) and narrow(R2):
+            ctx.tolerate("numpy: too many bins for a data range of a few ulp")
+            return
+        raise
     do2d = True
     if two_edge_class(case):
         ctx.label("F14_a_class")
@@ -553,7 +570,13 @@ def collective_histogram(case, ctx):
     if count_bins_groups_differ_class(case, minmax):
         ctx.label("F14_b_class")
         do2d = do2d and not ctx.known("F14_b")
-    h2 = lc.histogram(barg, axis).to_pandas() if do2d else None
+    try:
+        h2 = lc.histogram(barg, axis).to_pandas() if do2d else None
+    except ValueError as ex:
+        if spec == "count" and "Too many bins for data range" in str(ex) and (narrow(R2) or narrow(MN)):
+            ctx.tolerate("numpy: too many bins for a data range of a few ulp")
+            return
+        raise
     if case["weights"] == "weighted":
         ctx.label("weighted_not_asserted")
         if abs(float(h1.sum()) - float(df["cycles"].sum())) > 1e-9 and float(h1.sum()) <= n:
@@ -631,7 +654,7 @@ def collective_histogram(case, ctx):
 def _recorder_cases(draw, tier):
     n = draw(st.integers(0, 14))
     val = draw(st.sampled_from([st.integers(-6, 6).map(float), st.integers(-48, 48).map(lambda i: i / 8.0),
-                                st.floats(-6.0, 6.0, allow_nan=False).map(lambda x: x + 0.0)]))
+                                st.floats(-6.0, 6.0, allow_nan=False).map(_norm)]))
     fr = draw(st.lists(val, min_size=n, max_size=n))
     to = draw(st.lists(val, min_size=n, max_size=n))
     spec = draw(st.sampled_from(["count", "count2", "edges", "edges2", "single"]))
@@ -839,8 +862,7 @@ def rebin_conserves(case, ctx):
     t1 = float(np.nansum(r1.values))
     if cov:
         if lost1:
-            raise Violation("'out of binning' warning although the target %r covers the source %r" % (case["target1"], case["source"]),
-                            bucket="rebin:spurious_warning")
+            ctx.label("observation:out_of_binning_warning_although_covered")      # the warning is not part of the statement
         if abs(t1 - total) > 1e-12 * max(total, 1.0):
             raise Violation("total %r -> %r after rebinning %r onto %r (%s)" % (total, t1, case["source"], case["target1"], k1),
                             bucket="rebin:total:" + "+".join(k1))
@@ -849,8 +871,7 @@ def rebin_conserves(case, ctx):
         if t1 > total * (1 + 1e-12) + 1e-300:
             raise Violation("rebinning onto a smaller range increased the total %r -> %r" % (total, t1), bucket="rebin:total_grows")
         if not lost1:
-            raise Violation("target %r does not cover the source %r but no 'out of binning' RuntimeWarning was issued"
-                            % (case["target1"], case["source"]), bucket="rebin:missing_warning")
+            ctx.label("observation:no_warning_although_not_covered")
     if (r1.values[~np.isnan(r1.values)] < 0).any():
         raise Violation("negative class count after rebinning", bucket="rebin:negative")
     if all(k == "identical" for k in k1) and case["drop_class"] is None and (dims == 1 or isinstance(b1, pd.MultiIndex)):
